@@ -451,3 +451,40 @@ package ttlv
 //@   ensures r1 == nil ==> mapok(tagByName, name) && r0 == mapget(tagByName, name)
 //@   ensures mapok(tagByName, name) ==> r1 == nil
 //@   pure
+
+// ---------------------------------------------------------------------------
+// C02, text decoders: encoding/json and encoding/xml are external; the readers built on them are swept for
+// explicit panics and failing type assertions for an arbitrary reader state. The shared helpers get (empty)
+// contracts so that each method is checked on its own instead of being inlined into every caller.
+
+//@ func (*jsonReader).getMap
+//@   requires j != nil
+//@   pure
+
+//@ func (*jsonReader).getValue
+//@   requires j != nil
+//@   pure
+
+//@ func (*jsonReader).Tag
+//@   requires j != nil
+//@   pure
+
+//@ func (*jsonReader).Type
+//@   requires j != nil
+//@   pure
+
+//@ func (*jsonReader).assertType
+//@   requires j != nil
+//@   pure
+
+//@ func (*xmlReader).Tag
+//@   requires dec != nil
+//@   pure
+
+//@ func (*xmlReader).Type
+//@   requires dec != nil
+//@   pure
+
+//@ func (*xmlReader).assertType
+//@   requires dec != nil
+//@   pure
